@@ -713,16 +713,18 @@ bool TimeZoneInfo::Load(ZoneInfoSource* zip) {
   // Determine the before-first-transition type.
   default_transition_type_ = 0;
   if (seen_type_0 && hdr.timecnt != 0) {
-    std::uint_fast8_t index = 0;
+    // Note: type indexes are 8-bit, so only the first 256 types can be used.
+    const std::size_t typecnt = std::min<std::size_t>(hdr.typecnt, 256);
+    std::size_t index = 0;
     if (transition_types_[0].is_dst) {
       index = transitions_[0].type_index;
       while (index != 0 && transition_types_[index].is_dst)
         --index;
     }
-    while (index != hdr.typecnt && transition_types_[index].is_dst)
+    while (index != typecnt && transition_types_[index].is_dst)
       ++index;
-    if (index != hdr.typecnt)
-      default_transition_type_ = index;
+    if (index != typecnt)
+      default_transition_type_ = static_cast<std::uint_fast8_t>(index);
   }
 
   // Copy all the abbreviations.
